@@ -362,6 +362,10 @@ fn judge_c09(
                 let cs = mdscan::scan(&after[c]);
                 let title = mdscan::title_of(&cs);
                 let first_level = cs.atoms.first().map(|a| a.kind.clone());
+                // the new note holds the extracted subtree and nothing else: the source's front matter stays with the source
+                if let Some(m) = &cs.meta {
+                    v.push(("created-note-carries-front-matter".into(), format!("{} begins with front matter {:?}", c, m)));
+                }
                 if !matches!(first_level, Some(AKind::Heading(1))) {
                     v.push(("extracted-note-not-promoted".into(), format!("{} starts with {:?}", c, first_level)));
                 }
